@@ -182,7 +182,17 @@ def init_obligations(R):
             paths = explore(run)
             discharge(R, f'fd.__init__[fd_order={order}]', '__init__', paths)
         except (SX.PathAbort, TypeError, AttributeError) as e:
-            R.ob(f'fd.__init__[fd_order={order}]:symbolic-run', '__init__', 'undecided', 'z3', time.time() - t0, f'{type(e).__name__}: {e}')
+            if 'arange with step' in str(e):
+                # np.arange(start, stop, step) with a real step: its length is ceil((stop-start)/step) evaluated in binary64,
+                # so "exactly N points" is a floating-point statement, outside A1: decided by a search over parameter sets
+                # whose multiples are not representable (bounded), each hit replayed on the real constructor
+                found, text = native_grid_replay()
+                R.bounded.append(dict(function='FiniteDifference.__init__ (np.arange with a float step)', bound='280 parameter sets incl. spacings 0.1, 0.3, 1/3'))
+                R.ob(f'fd.__init__[fd_order={order}]:coordinate arrays have exactly N points (binary64 arange)', '__init__',
+                     'refuted' if found else 'undecided', 'bounded-native', time.time() - t0, text, ['arange-length'] if found else None,
+                     replay=native_grid_replay)
+            else:
+                R.ob(f'fd.__init__[fd_order={order}]:symbolic-run', '__init__', 'undecided', 'z3', time.time() - t0, f'{type(e).__name__}: {e}')
 
 
 def roundtrip_obligations(R):
